@@ -7,7 +7,7 @@ namespace Hls
 
 /-- a classified line (`Line` with `Tag` flattened) -/
 inductive Line where
-  | version (v : ProtocolVersion)
+  | version (v : Nat)
   | inf (t : ExtInf)
   | byteRange (r : ByteRange)
   | discontinuity
@@ -31,6 +31,35 @@ inductive Line where
   | comment (s : Str)
   | uri (s : Str)
 deriving Repr, DecidableEq
+
+/-- the text the library writes for a line (`Display` of the tag; URI / comment / unknown lines verbatim) -/
+def Line.render : Line → Str
+  | .version v => ExtXVersion.show v
+  | .inf t => t.show
+  | .byteRange r => ExtXByteRange.show r
+  | .discontinuity => pfxDiscontinuity
+  | .key k => ExtXKey.show k
+  | .map m => m.show
+  | .programDateTime t => t.show
+  | .dateRange t => t.show
+  | .targetDuration d => ExtXTargetDuration.show d
+  | .mediaSequence n => ExtXMediaSequence.show n
+  | .discontinuitySequence n => ExtXDiscontinuitySequence.show n
+  | .endList => pfxEndList
+  | .playlistType p => p.show
+  | .iFramesOnly => pfxIFramesOnly
+  | .media m => m.show
+  | .sessionData d => d.show
+  | .sessionKey k => ExtXSessionKey.show k
+  | .independentSegments => pfxIndependentSegments
+  | .start s => s.show
+  | .variant v => v.show
+  | .unknown s => s
+  | .comment s => s
+  | .uri s => s
+
+/-- lines → text: every line terminated by `\n` (`writeln!`) -/
+def renderLines (ls : List Line) : Str := ls.flatMap fun l => l.render ++ ['\n']
 
 /-- name of the `Tag` variant (as in `Generated.dispatchOrder`), `none` for comment / URI lines -/
 def Line.kind : Line → Option String
